@@ -362,6 +362,16 @@ func tableSummary(f *ssa.Function) *Summary {
 		}
 	}
 	switch name {
+	case "golang.org/x/crypto/cryptobyte.NewBuilder", "golang.org/x/crypto/cryptobyte.NewFixedBuilder":
+		// the builder writes into the buffer it was given (behind its len, and
+		// in place when the buffer has room): the builder holds that storage
+		if len(s.RetCont) > 0 {
+			s.RetCont[0] = sRoot(0).union(dRootSet(0, ""))
+		}
+	case "(*golang.org/x/crypto/cryptobyte.Builder).Bytes", "(*golang.org/x/crypto/cryptobyte.Builder).BytesOrPanic":
+		// hands out the builder's own storage
+		s.RetAddr[0] = dRootSet(0, "")
+		s.RetCont[0] = dRootSet(0, "")
 	case "(*bytes.Buffer).Bytes", "(*bytes.Buffer).Next", "(*bytes.Buffer).AvailableBuffer":
 		// a view of the buffer's own storage
 		s.RetAddr[0] = dRootSet(0, "")
